@@ -68,7 +68,7 @@ class Oracle:
         self.lim = None  # RLIMIT_FSIZE in force (bytes) or None
         self.maplim = False  # an address-space limit is in force (a window may fail to grow)
         self.mapfailed = False  # ... and a call has answered ERRNO under it: windows may be unmapped from now on
-        self.exists = False  # the data file exists
+        self.exists = None  # the data file exists (None: not known yet - the scripts of one harness process share the file)
         self.ro = False  # opened read-only
         self.locks_next = self.locks = False  # use_locks of the next / the current handle
         self.held = 0  # read locks the caller holds (successful acquire_mmap without release_mmap)
@@ -169,6 +169,8 @@ class Oracle:
             isz, mo = int(t[1]), int(t[2])
             if self.opened:
                 self.do_close()
+            if self.exists is None:
+                return {"rc": ["NOTEXISTS", "OK", "READONLY", "MAXOFF", "INVARGS"], "unknown": True}
             if not self.exists:
                 return {"rc": ["NOTEXISTS"], "raw": True}
             if OPEN and 0 < mo < PS:
@@ -372,6 +374,8 @@ def judge(o, t, e, line):
     if e.get("smallmax") and f[1] == "OK":
         return ("maxoff=%d accepted: a configured maximum below one page is silently dropped (the file may grow without limit)"
                 % e["smallmax"])
+    if e.get("unknown"):
+        return None
     if e.get("raw"):
         return None if f[1] == e["rc"][0] else "expected %s" % e["rc"][0]
     if f[1] not in e["rc"]:
@@ -383,7 +387,7 @@ def judge(o, t, e, line):
         return "rc %s, expected %s" % (f[1], "/".join(e["rc"]))
     kv = dict(x.split("=") for x in f if "=" in x)
     fsize, stat = int(kv.get("fsize", "-2")), int(kv.get("stat", "-2"))
-    exp_size, exp_stat = (o.size, o.size) if o.opened else (-1, len(o.kernel))
+    exp_size, exp_stat = (o.size, o.size) if o.opened else (-1, len(o.kernel) if o.exists else -1 if o.exists is False else stat)
     if fsize >= 0 and fsize % PS:
         return "state().fsize=%d is not page aligned" % fsize
     if fsize >= 0 and stat != fsize:
@@ -588,7 +592,7 @@ def gen_script(rng, run):
     for it in range(nops):
         lim = min(12 * PS, o.maxoff + 1) if o.maxoff and not rng.chance(1, 6) else 12 * PS
         if not o.opened:
-            emit(open_line(0))
+            emit(open_line(0 if o.exists else 1))  # (the file of the previous script is still there until an open has truncated it)
             if it == start_at:
                 start_at += 1
             continue
@@ -652,7 +656,9 @@ def gen_script(rng, run):
                     emit("read %d %d" % (pick_off(rng, o, max(0, o.size - 1)), rng.choice([1, 7, PS])))  # reading under the read lock
                 emit("release")
             elif not (o.locks and not OPEN):
-                emit("acquire %d" % (rng.range(0, 6) * PS + rng.choice([0, 0, 1])))
+                e = emit("acquire %d" % (rng.range(0, 6) * PS + rng.choice([0, 0, 1])))
+                if e.get("acq"):
+                    emit("release")  # it happened to name a mapped window
         elif k == "rawfile":
             # a file of arbitrary length made outside the library, opened without OTRUNC: the open pads it to a page multiple
             emit("close")
@@ -1155,20 +1161,28 @@ def check(run):
         run.broken.append("T2 correspondence: %d of %d scripts differ, first: script %d op %d `%s` impl=`%s` model=`%s`"
                           % ((nmis, len(scripts)) + first))
     return run.finish(level=LEVEL,
-                      rule="a case is one script of 12-90 calls (open with initial size/maxoff/policy, window layout none/"
-                           "whole/first/partial/several, shared or private, then writes/reads/copies/truncations/size requests/"
-                           "window additions and removals/close+reopen with offsets and lengths placed -1/0/+1 around window "
-                           "edges, EOF, maxoff and page boundaries; one script in three has an OS-refusal episode: RLIMIT_FSIZE "
-                           "lowered to the size + {0,1,page-1,page,...}, growth requests of every kind beyond and within it, "
-                           "a look at size/windows/bytes after every refused call, limit lifted, reopen; plus the directed "
-                           "family policy x layout x kind of growth request); distinct = distinct script text",
+                      rule="a case is one script of 12-90 calls (open with initial size/maxoff/policy, with or without use_locks, window "
+                           "layout none/whole/first/partial/several, shared or private, then writes/reads/copies/truncations/size requests/"
+                           "window additions and removals/probe/acquire+release/sync_mmap/close+reopen with offsets and lengths placed "
+                           "-1/0/+1 around window edges, EOF, maxoff and page boundaries; files of arbitrary length made outside the library "
+                           "and opened without OTRUNC, read-write and read-only; one script in three has an OS-refusal episode: RLIMIT_FSIZE "
+                           "lowered to the size + {0,1,page-1,page,...}, growth requests of every kind beyond and within it, a look at "
+                           "size/windows/bytes after every refused call, limit lifted, reopen; plus the directed families policy x layout x "
+                           "kind of growth request and layout x kind of growth under an address-space limit (mmap refused); plus scripts on "
+                           "the plain file underneath: open modes x lock modes x existing/missing/foreign file, reads/writes/copies around "
+                           "EOF); distinct = distinct script text",
                       assumptions=["mmap coherence between a MAP_SHARED mapping and pread/pwrite is trusted (Linux)",
-                                   "bytes written through a MAP_PRIVATE window are compared only until that window is "
-                                   "remapped or removed (that is what MAP_PRIVATE means); the Coq model is compared exactly",
-                                   "file I/O is complete (no short transfers) in the model; the only OS failure modelled "
-                                   "and injected is the refusal to grow the file (RLIMIT_FSIZE/EFBIG standing for ENOSPC/"
-                                   "EDQUOT): shrinking, mmap and msync are not failed",
-                                   "the injected limit is never below the current file size (pwrite inside the file cannot fail)"])
+                                   "bytes written through a MAP_PRIVATE window are compared by the oracle only until that window is "
+                                   "remapped or removed (that is what MAP_PRIVATE means; theorem C12_private_read_last_write states "
+                                   "exactly this); the Coq model is compared exactly",
+                                   "file I/O is complete (no short transfers) in the model; the OS failures modelled and injected are the "
+                                   "refusal to grow the file (RLIMIT_FSIZE/EFBIG standing for ENOSPC/EDQUOT) and the refusal to map a "
+                                   "window (RLIMIT_AS/ENOMEM; the model refuses by a budget on the bytes mapped by the windows): "
+                                   "shrinking, msync and flock are not failed",
+                                   "the injected limit is never below the current file size (pwrite inside the file cannot fail)",
+                                   "open findings of the unmodified library (small maxoff = unlimited, forward-overlapping copy through the "
+                                   "file refused after growth, failed acquire_mmap keeps the read lock, flock failure leaks the descriptor) "
+                                   "are tolerated by the oracle unless VERIF_C12_OPEN=1; the model follows the tree through behavioural facts"])
 
 
 def replay(run, path):
